@@ -222,7 +222,7 @@ def run(repo, rep):
     rep.count(nc)
     # the call builder: imported from C17.b (children of a call one level deeper, hugged sole argument excepted, F(...) at the cut)
     from .common import import_instances
-    n += import_instances(repo, rep, 'C17', lambda i: i.rule == 'C17.b' and i.construct.endswith((':nested-context', ':hug-context')), 'C11.b',
+    n += import_instances(repo, rep, 'C17', lambda i: i.rule == 'C17.b' and i.construct.endswith((':nested-context', ':hug-context', ':hug-only-exact-builtin-containers')), 'C11.b',
                           'arguments of a call must be printed exactly one level deeper')
     nc += import_instances(repo, rep, 'C17', lambda i: i.rule == 'C17.b' and i.construct.endswith(':depth-placeholder'), 'C11.c',
                            'a call at the cut must be shown as F(...)')
